@@ -463,8 +463,9 @@ adjacent blocks of one (emitted) name are merged.  `cur` = the blocks that are o
 def wrap (names : List Named) (p : Program) : List String → List (Option Nat × List Tok) → List Tok
   | cur, [] => cur.map fun _ => .cl
   | cur, (ns, toks) :: rest =>
-    -- a root definition that emits nothing leaves no node behind: the blocks around it stay adjacent
-    if ns.isNone && toks.isEmpty then wrap names p cur rest else
+    -- a definition that emits nothing, in a namespace that is open anyway (or at the root), leaves nothing between the
+    -- blocks around it: they stay adjacent and are merged (also the nested ones, `simplify_namespaces` recurses)
+    if toks.isEmpty && (nsPath names ns).isPrefixOf cur then wrap names p cur rest else
     let path := nsPath names ns
     let c := commonPrefix cur path
     let chain := nsChain p (p.nss.length + 1) ns
